@@ -636,7 +636,8 @@ RUNNER_FP = [
     [r"^react::system_command_spawning::SystemCommandCleanup::run$",
      [r"^react::commands::end_\w+$", r"^react::syscommand_runner::verif_h::cleanup_\d$", r"verif_h::fp_never$"]],
     [r"^<std::boxed::Box<dyn for<'a> std::ops::FnMut\(&'a mut bevy::world::World, react::system_command_spawning::SystemCommandCleanup\).*::call_mut$",
-     [r"^react::syscommand_runner::verif_h::(logger|reenter|step_\w+|runner_\w+|diag_\w+)::\{closure#\d+\}$"]],
+     [r"^react::syscommand_runner::verif_h::(logger|reenter|step_\w+|runner_\w+|diag_\w+)::\{closure#\d+\}$",
+      r"^react::system_command_spawning::SystemCommandCallback::new::<.*>::\{closure#0\}$"]],
     [r"^bevy::world::World::flush_commands$", [r"^<\(.+\) as bevy::world::ApplyList>::apply_cmd$"]],
     [r"^bevy::world::CommandQueue::apply$", [r"^<\(.+\) as bevy::world::ApplyList>::apply_cmd$"]],
 ]
@@ -746,6 +747,15 @@ OBLIGATIONS.append(_runner(
     witness=[["runner", "poll_same_system"]]))
 OBLIGATIONS[-1]["stubs"] = [x for x in OBLIGATIONS[-1]["stubs"] if not x.startswith(("schedule_removal", "garbage_collect"))] + [
     "garbage_collect_entities -> mark 31, schedule_removal_and_despawn_reactors -> mark 32 (only their POSITION in the runner is the subject)"]
+OBLIGATIONS.append(_runner(
+    "runner.real_callback", "runner_real_callback_cleanup_before_deferred", ["C04", "C09", "C13", "C02"],
+    "an ordinary Bevy system (Commands, ResMut, Local) spawned with spawn_system_command; two commands for it with different "
+    "setup/cleanup; root calls",
+    "runner and the real callback wrapper joined (SystemCommandCallback::new, RawCallbackSystem::run_with_cleanup, "
+    "run_initialized_system): setup, body, the command's cleanup, THEN the body's deferred commands; the Local continues over both "
+    "commands; quiescent after each", ("thorough",), witness=_W_REPLAY))
+OBLIGATIONS[-1]["functions"] = OBLIGATIONS[-1]["functions"] + ["SystemCommandCallback::new", "spawn_system_command", "RawCallbackSystem::run_with_cleanup", "run_initialized_system"]
+OBLIGATIONS[-1]["src"] = OBLIGATIONS[-1]["src"] + ["src/ecs/callbacks.rs"]
 OBLIGATIONS.append(_runner("runner.witness", "runner_step_witness", ["C02", "C09", "C11"], "-", "vacuity twin of the runner step family",
                            expect="fail"))
 
